@@ -41,6 +41,7 @@ type Arg struct {
 	// session scripts (C10)
 	K string
 	V *Val
+	H int64 // keep: handle under which the handler keeps its session
 }
 
 // Reply is the JSON payload of every successful answer.
@@ -52,7 +53,7 @@ type Reply struct {
 	Front string
 	Uid   string
 	H     int64
-	Ctr   int64 // "sent": the issuing instance's issue counter when the response was issued
+	Ctr   int64  // "sent": the issuing instance's issue counter when the response was issued
 	Pad   string `json:",omitempty"`
 }
 
